@@ -13,6 +13,7 @@ import (
 
 // packages whose init functions are executed (concretely) before a harness runs
 var initAllow = map[string]bool{
+	"time":                                   true,
 	"sync":                                   true,
 	"io":                                     true,
 	"strings":                                true,
